@@ -871,6 +871,23 @@ impl Ctx {
         let lone_cr = { let b: Vec<char> = src.chars().collect(); (0..b.len()).any(|i| b[i] == '\r' && b.get(i + 1) != Some(&'\n')) };
         let toks = lex(src);
         let mut block_raw_ne_cooked = false;
+        // the computable in-fragment predicate of the parse_render theorems, at text level: whitespace trivia only
+        // (no comments), no block strings, no \u / \/ escapes; every type, value, argument list and directive of such
+        // a text is an instance of C07_parse_render_{type,value,arguments,directive_*}
+        let mut render_fragment = toks.is_some();
+        if let Some(ts) = &toks {
+            let hashes_src = src.matches('#').count();
+            let mut hashes_tok = 0usize;
+            for t in ts {
+                match t {
+                    Tk::Block(_) => render_fragment = false,
+                    Tk::Str(x) => { hashes_tok += x.matches('#').count(); if x.contains("\\u") || x.contains("\\/") { render_fragment = false; } }
+                    Tk::ImportHash => hashes_tok += 1,
+                    _ => {}
+                }
+            }
+            if hashes_src > hashes_tok { render_fragment = false; }
+        }
         if let Some(ts) = &toks {
             for t in ts { if let Tk::Block(b) = t { if block_string_value(&b[3..b.len() - 3]) != b[3..b.len() - 3] { block_raw_ne_cooked = true; } } }
         }
@@ -889,7 +906,7 @@ impl Ctx {
         }
         let mut d = json!({"kind": match kind { Kind::Op => "operation", Kind::Ts => "type-system" }, "stream": stream, "text": src, "file": file,
             "impl_outcome": outcome, "pairs": tree.as_ref().map(|t| t.1), "canon_same": canon_same,
-            "has_lone_cr": lone_cr, "block_raw_ne_cooked": block_raw_ne_cooked, "spec_lexable": toks.is_some(), "in_lang": in_lang, "expect": expect, "spec_classes": spec_classes});
+            "has_lone_cr": lone_cr, "block_raw_ne_cooked": block_raw_ne_cooked, "spec_lexable": toks.is_some(), "render_fragment": render_fragment, "in_lang": in_lang, "expect": expect, "spec_classes": spec_classes});
         if let (Some(o), Some(e)) = (d.as_object_mut(), extra.as_object()) { for (k, v) in e { o.insert(k.clone(), v.clone()); } }
         self.bump(&format!("stream:{stream}"));
         self.bump(&format!("outcome:{outcome}"));
@@ -897,7 +914,8 @@ impl Ctx {
         if lone_cr { self.bump("with_lone_cr"); }
         if block_raw_ne_cooked { self.bump("with_block_string_needing_cooking"); }
         if !canon_same { self.bump("canon_differs"); }
-        if in_lang { self.bump("in_language"); if outcome != "ok" { self.bump("in_language_but_not_parsed"); } }
+        if in_lang { self.bump("in_language"); if outcome != "ok" { self.bump("in_language_but_not_parsed"); }
+                     if render_fragment { self.bump("in_language_and_in_parse_render_fragment"); } }
         if tree.is_some() != (outcome != "err") { self.bump("INCONSISTENT_tree_vs_ast"); }
         if outcome == "ok" && nchars >= 8 { self.distinct.insert(src.to_string()); }
         if self.samples.len() < 6 && self.cases.len() % 97 == 5 { self.samples.push(d.clone()); }
